@@ -436,6 +436,21 @@ func (t *tr2) exprAs(e ast.Expr, want types.Type, bs *[]bind) string {
 	if id, ok := e.(*ast.Ident); ok && id.Name == "nil" {
 		return t.zero(e, want)
 	}
+	if si := sumOf(want); si != nil {
+		have := t.info.TypeOf(e)
+		if sumOf(have) == si {
+			return t.expr(e, bs)
+		}
+		impl := implName(have)
+		for _, i := range si.impls {
+			if i == impl {
+				t.ctype(e, want) // declares the Inductive
+				return "(" + t.q(t.g.mods[modPath+"/"+si.pkg], sumCtor(si, impl)) + " " + t.expr(e, bs) + ")"
+			}
+		}
+		t.fail(e, "value of type %s is not a registered implementation of %s", have, si.name)
+		return "tt"
+	}
 	return t.expr(e, bs)
 }
 
@@ -487,6 +502,9 @@ func (t *tr2) call(x *ast.CallExpr, bs *[]bind) string {
 		src := t.info.TypeOf(x.Args[0])
 		if isBool(dst) && isBool(src) {
 			return t.expr(x.Args[0], bs)
+		}
+		if id, isId := x.Args[0].(*ast.Ident); isId && id.Name == "nil" && isSlice(dst) && isBytes(dst) {
+			return "[]"
 		}
 		kd, ok1 := intKind(dst)
 		_, ok2 := intKind(src)
@@ -579,6 +597,19 @@ func (t *tr2) call(x *ast.CallExpr, bs *[]bind) string {
 			return "ErrNil"
 		case "fmt.Errorf":
 			return t.errorf(x, bs)
+		}
+	}
+	if callee.Pkg() != nil && abstractCtor2[callee.Pkg().Path()+"."+callee.Name()] && recv == nil {
+		if len(x.Args) == 1 && isBytes(t.info.TypeOf(x.Args[0])) && isAbstractBytes(t.info.TypeOf(x)) {
+			return t.expr(x.Args[0], bs)
+		}
+		t.fail(x, "abstract-bytes constructor %s used with unexpected types", callee.Name())
+		return "[]"
+	}
+	// method call on a sum interface: dispatch on the constructor
+	if recv != nil {
+		if si := sumOf(t.info.TypeOf(recv)); si != nil {
+			return t.sumDispatch(x, si, recv, callee.Name(), bs)
 		}
 	}
 	// abstract-bytes interface methods
@@ -742,4 +773,56 @@ func (t *tr2) builtin(name string, x *ast.CallExpr, bs *[]bind) string {
 	}
 	t.fail(x, "builtin %s outside the subset (arity %s)", name, strconv.Itoa(len(x.Args)))
 	return "0"
+}
+
+func (t *tr2) sumDispatch(x *ast.CallExpr, si *sumInfo, recv ast.Expr, method string, bs *[]bind) string {
+	rt := t.info.TypeOf(recv)
+	t.ctype(recv, rt)
+	rv := t.expr(recv, bs)
+	pkg := rt.(*types.Named).Obj().Pkg()
+	mod := t.g.mods[modPath+"/"+si.pkg]
+	var argv []string
+	arms := []string{"| " + t.q(mod, si.name+"_nil") + " => GPanic"}
+	for k, impl := range si.impls {
+		tn, _ := pkg.Scope().Lookup(strings.TrimPrefix(impl, "*")).(*types.TypeName)
+		if tn == nil {
+			t.fail(x, "sum interface %s: implementation %s not found", si.name, impl)
+			continue
+		}
+		var recvTy types.Type = tn.Type()
+		if strings.HasPrefix(impl, "*") {
+			recvTy = types.NewPointer(tn.Type())
+		}
+		obj, _, _ := types.LookupFieldOrMethod(recvTy, true, pkg, method)
+		m, _ := obj.(*types.Func)
+		fi := t.g.fns[m]
+		if m == nil || fi == nil {
+			t.fail(x, "method %s of implementation %s of %s is not translated", method, impl, si.name)
+			continue
+		}
+		if fi.mut {
+			t.fail(x, "receiver-mutating method %s behind an interface unsupported", fi.name)
+			continue
+		}
+		sig := m.Type().(*types.Signature)
+		if k == 0 || argv == nil {
+			argv = t.args(x, sig, bs)
+		}
+		arg := "v_"
+		_, wantPtr := sig.Recv().Type().Underlying().(*types.Pointer)
+		havePtr := strings.HasPrefix(impl, "*")
+		call := ""
+		switch {
+		case wantPtr == havePtr:
+			call = "(" + strings.Join(append([]string{t.q(fi.mod, fi.name), arg}, argv...), " ") + ")"
+		case wantPtr && !havePtr:
+			call = "(" + strings.Join(append([]string{t.q(fi.mod, fi.name), "(Some v_)"}, argv...), " ") + ")"
+		default:
+			call = "(gbind (go_deref v_) (fun d_ => " + strings.Join(append([]string{t.q(fi.mod, fi.name), "d_"}, argv...), " ") + "))"
+		}
+		arms = append(arms, "| "+t.q(mod, sumCtor(si, impl))+" v_ => "+call)
+	}
+	tmp := t.freshTmp()
+	*bs = append(*bs, bind{pat: tmp, rhs: "(match " + rv + " with " + strings.Join(arms, " ") + " end)"})
+	return tmp
 }
